@@ -20,6 +20,9 @@ class Program:
         facts["_renamed"] = self.renamed
         self.facts = facts
         self.repo = facts["_meta"]["repo"]
+        if not facts.get("_desugared"):
+            _desugar_fn_values(facts)
+            facts["_desugared"] = True
         self.fns = [hir.Fn(r, facts) for r in facts["fns"]]
         self.by_def = {f.def_path: f for f in self.fns}
         self.user_fns = [f for f in self.fns if not f.rec.get("gen") and f.body is not None]
@@ -175,6 +178,58 @@ class Program:
 
     def src(self, n, max_lines=8):
         return hir.src_text(self.repo, n["sp"], max_lines)
+
+
+HOF_ARITY = {"map": 1, "and_then": 1, "map_or": 1, "map_or_else": None, "unwrap_or_else": 0, "or_else": 0, "then": 0, "filter": 1, "is_some_and": 1, "for_each": 1, "any": 1, "all": 1, "find": 1, "inspect": 1, "ok_or_else": 0, "map_err": 1}
+
+
+def _desugar_fn_values(facts):
+    """`x.map_or_else(f, g)` with *paths to crate functions* as arguments is rewritten into the
+    equivalent closures `x.map_or_else(|| f(), |v| g(v))`, so that the analyses (which understand
+    closures and calls) see what is applied to what.  Constructor paths are left alone."""
+    local_defs = {r["def"] for r in facts["fns"] if "body" in r}
+    counter = [50_000_000]
+
+    def fresh():
+        counter[0] += 1
+        return counter[0]
+
+    def arity_of(path_node, method, pos, nargs):
+        d = (path_node.get("res") or {}).get("path")
+        for r in facts["fns"]:
+            if r["def"] == d:
+                return len(r.get("params", []))
+        if method == "map_or_else":
+            return 0 if pos == 0 else 1
+        return HOF_ARITY.get(method)
+
+    def visit(n):
+        if isinstance(n, dict):
+            if n.get("k") == "MethodCall" and n.get("method") in HOF_ARITY:
+                for i, a in enumerate(n.get("args", [])):
+                    a0 = a
+                    while isinstance(a0, dict) and a0.get("k") in ("DropTemps", "Use"):
+                        a0 = a0["x"]
+                    if isinstance(a0, dict) and a0.get("k") == "Path" and (a0.get("res") or {}).get("res") == "Def" and (a0["res"].get("kind") in ("Fn", "AssocFn")) and a0.get("callee") and a0["res"].get("path") in local_defs:
+                        ar = arity_of(a0, n["method"], i, len(n["args"]))
+                        if ar is None or ar > 2:
+                            continue
+                        params, args = [], []
+                        for j in range(ar):
+                            lid = fresh()
+                            params.append({"sp": a0["sp"], "ty": "?", "k": "Binding", "local": lid, "name": "__fnarg%d" % j, "mode": "BindingMode(No, Not)"})
+                            args.append({"id": fresh(), "sp": a0["sp"], "ty": "?", "k": "Path", "res": {"res": "Local", "local": lid, "name": "__fnarg%d" % j}})
+                        call = {"id": fresh(), "sp": a0["sp"], "ty": "?", "k": "Call", "f": a0, "args": args, "callee": a0["callee"], "synthetic": True}
+                        n["args"][i] = {"id": fresh(), "sp": a0["sp"], "ty": "closure", "k": "Closure", "def": "synthetic", "params": params, "body": call, "synthetic": True}
+            for v in list(n.values()):
+                visit(v)
+        elif isinstance(n, list):
+            for v in n:
+                visit(v)
+
+    for r in facts["fns"]:
+        if "body" in r and not r.get("gen"):
+            visit(r["body"])
 
 
 def _generic_free(p):
